@@ -401,6 +401,12 @@ class Engine(TorchDispatchMode):
         if a_shape != tuple(b_shape):
             self.oblige(label + ":shape", False, got_shape=list(a_shape), expected_shape=list(b_shape), **sig)
             return
+        if sig.pop("split", False):
+            a = self.read(got) if isinstance(got, torch.Tensor) else (got if isinstance(got, np.ndarray) else obj(got))
+            b = self.read(expected) if isinstance(expected, torch.Tensor) else (expected if isinstance(expected, np.ndarray) else obj(expected))
+            for pos in (np.ndindex(*a.shape) if a.shape else [()]):
+                self.oblige(label, T.tob(T.same(a[pos], b[pos])), elem=list(pos), **sig)
+            return
         self.oblige(label, self.all_same(got, expected), **sig)
 
     # ---------------------------------------------------------------- dispatch
